@@ -9,6 +9,7 @@ mod checks;
 mod engine;
 mod gdsref;
 mod gen_gds;
+mod gen_nlib;
 mod rng;
 mod simio;
 
